@@ -10,28 +10,33 @@ CHECKS = {
  "C08": dict(text="Theorems (coq/props/C08.v) prove for ALL byte orders, widths, positions and notations that set/get_startbit are "
              "mutually inverse, that every notation's number denotes the same physical bit of the stored signal, and that exactly the "
              "positions before bit 0 are rejected. The model is tied to the code by an exhaustive differential run over the property's "
-             "whole finite domain (608k set calls x 6 get notations) on every run.",
+             "whole finite domain (both byte orders x widths 1..64 x positions 0..511 x 9 set notations = 590k set calls x 6 get notations) on every run, "
+             "plus query/edit histories on one signal object; the regenerated definitions (py2coq) are proved equal to the model over that domain.",
              note=TB + "Model: coq/model/Startbit.v (hand written).",
              technique="Coq proof over a Gallina model + exhaustive model/implementation correspondence", ref="5/C08"),
  "C01": dict(text="Theorems (coq/props/C01.v) prove for EVERY payload length, width >= 1, placement inside the frame, byte order and "
              "signedness that the decoded raw value is exactly the number formed by the convention's bits (bit sum; two's complement; float = the "
              "field's pattern), that it depends on exactly those bits, the sawtooth walk, and the closed form of the length rule. The model is tied "
-             "to Frame.unpack/decode and CanMatrix.decode by a differential run (~58k cases quick, all lengths x widths x starts thorough) incl. "
-             "placements that leave the frame; the search evaluates the property on the implementation with an independent bit-sum oracle.",
+             "to Frame.unpack/decode, CanMatrix.decode and decode_pycan by a differential run (~60k cases quick, all lengths x widths x starts thorough) "
+             "inside the quantifier (placements that leave the frame are neither judged nor tied), incl. one frame object decoded again after in-place "
+             "edits; the search evaluates the property on the implementation with an independent bit-sum oracle.",
              note=TB + "Model: coq/model/Codec.v. struct's IEEE conversion is trusted (applied to both sides); PDU-container payload walking is not modelled (length rule covered by the gate model + metamorphic identity).",
              technique="Coq proof over a Gallina model + model/implementation correspondence + oracle-based search", ref="5/C01"),
  "C02": dict(text="Theorems (coq/props/C02.v) prove for EVERY frame length, every layout of pairwise non-overlapping signals (any widths, byte "
              "orders, signedness, float32/64), every subset supplied and every representable value: the encoder is total, the payload has the "
              "frame's length, each supplied signal decodes back to its value, every foreign bit is 0, and re-encoding decoded values reproduces "
-             "any payload on covered bits. Tie: differential run of Frame.encode against the model (incl. overlapping layouts); search with "
-             "decode/encode identities evaluated on the implementation.",
+             "any payload on covered bits. Tie: differential run of Frame.encode against the model on non-overlapping layouts (overlapping ones are outside "
+             "the quantifier and not tied), incl. one frame object encoded again after in-place layout edits through Frame.encode / CanMatrix.encode / "
+             "signals_to_bytes; search with decode/encode identities evaluated on the implementation.",
              note=TB + "Model: coq/model/Codec.v. Float values are handled as bit patterns (struct trusted); label inputs belong to C04.",
              technique="Coq proof over a Gallina model + model/implementation correspondence + oracle-based search", ref="5/C02"),
  "C09": dict(text="Theorems (coq/props/C09.v) prove for ALL integers: constructibility iff in the 11/29-bit range, lossless compound form, the "
              "J1939 getters equal the arithmetic fields and recompose to the identifier, each setter changes only its field, the PGN rule of "
              "J1939-21 (PS counted iff PF >= 240), PGN independence of priority/source/destination, and the frame CanMatrix.decode selects in any "
              "mixed matrix (exact id, else first 29-bit frame with the same PGN, else nothing; never an exception). Tie: differential run (all 2^11 "
-             "standard ids, every field exhaustively in several contexts, boundary integers, generated mixed matrices).",
+             "standard ids, every field exhaustively in several contexts, boundary integers, generated mixed matrices incl. frames flagged J1939 after "
+             "first use); where several frames carry the received PGN any of them is accepted (the property does not say which), received 11-bit "
+             "identifiers are not judged; the regenerated ArbitrationId definitions (py2coq) are proved equal to the model over the quantifier.",
              note=TB + "Model: coq/model/ArbId.v (after the fix: commit dda9667 in /repo). frame_by_id's memo is modelled as a scan here (C10 covers the memo).",
              technique="Coq proof over a Gallina model (bit-mask lemmas -> div/mod arithmetic) + model/implementation correspondence", ref="5/C09"),
  "C03": dict(text="Theorems (coq/props/C03.v) prove for every simply multiplexed frame, selector value (used or not) and payload that decode returns exactly "
